@@ -5,6 +5,7 @@
   would reject with an exception returns `none`.
 -/
 import MitmVerif.Model.C36
+import MitmVerif.Model.C35_Str
 namespace MitmVerif.C38Conv
 open MitmVerif MitmVerif.C36
 
@@ -147,6 +148,87 @@ def conv_17_18 (d : Dict) : Option Dict := do
   let d := setVersion d 18
   dupd d (s "client_conn") (fun c => pure (dset c (s "proxy_mode") (.str (s "regular"))))
 
+/-- `bytes.decode(errors="backslashreplace")` (UTF-8) as the UTF-8 bytes of the resulting str: the C35 transcription of the
+    UTF-8 decoder marks every undecodable byte `b` as U+DC00+b; backslashreplace writes `\xNN` for exactly those bytes. -/
+def bsrUtf8 (b : Bytes) : Bytes :=
+  (MitmVerif.C35.native b).flatMap (fun cp =>
+    if 0xDC80 ≤ cp ∧ cp ≤ 0xDCFF then [0x5c, 0x78, hexd ((cp - 0xDC00) / 16), hexd ((cp - 0xDC00) % 16)]
+    else (MitmVerif.C35.enc1 cp).getD [])
+
+/-- `d.pop(name, None)` -/
+def dpopD (d : Dict) (name : Bytes) : Value × Dict := ((dget d name).getD .null, dpop d name)
+
+/-- `if c.get(name) and isinstance(c[name][0], bytes): c[name][0] = c[name][0].decode(errors="backslashreplace")` -/
+def decodeHostIn (c : Dict) (name : Bytes) : Option Dict :=
+  match dget c name with
+  | none => some c
+  | some v =>
+    if !truthy v then some c else
+    match v with
+    | .list (.bytes h :: rest) => some (dset c name (.list (.str (bsrUtf8 h) :: rest)))
+    | .list _ => some c
+    | .str _ => some c                       -- "abc"[0] is a str
+    | .bytes _ => some c                     -- b"abc"[0] is an int
+    | _ => none                              -- int / float / bool [0]: TypeError; dict[0]: KeyError
+
+/-- the renames of the per-connection loop body of 18→19 (after `tls_established` was found present) -/
+def conn18fields (c : Dict) : Dict :=
+  let c := dpop c (s "tls_established")
+  let c := dset (dpop c (s "cipher_name")) (s "cipher") ((dget c (s "cipher_name")).getD .null)
+  if dhas c (s "transport_protocol") then c else dset c (s "transport_protocol") (.str (s "tcp"))
+
+/-- the per-connection loop body of 18→19 -/
+def conn18 (c : Dict) : Option Dict :=
+  if !dhas c (s "tls_established") then none else do
+  let c ← decodeHostIn (conn18fields c) (s "peername")
+  let c ← decodeHostIn c (s "sockname")
+  decodeHostIn c (s "address")
+
+/-- `if c.get("timestamp_start") is None: c["timestamp_start"] = 0.0` -/
+def tsDefault (cc : Dict) : Dict :=
+  match dget cc (s "timestamp_start") with
+  | none => dset cc (s "timestamp_start") (.float (s "0.0"))
+  | some .null => dset cc (s "timestamp_start") (.float (s "0.0"))
+  | some _ => cc
+
+/-- `c[new] = c.pop(old, None)` -/
+def rename (c : Dict) (old new : Bytes) : Dict := dset (dpop c old) new ((dget c old).getD .null)
+
+/-- the client record before the per-connection loop -/
+def client18pre (cc : Dict) : Dict := tsDefault (rename cc (s "address") (s "peername"))
+
+/-- what 18→19 does to `client_conn` -/
+def client18 (cc : Dict) : Option Dict :=
+  if dhas (client18pre cc) (s "tls_extensions") then conn18 (dpop (client18pre cc) (s "tls_extensions")) else none
+
+/-- the server record before the per-connection loop -/
+def server18pre (sc : Dict) : Dict :=
+  rename (rename (rename sc (s "ip_address") (s "peername")) (s "source_address") (s "sockname")) (s "via2") (s "via")
+
+/-- `if sc["sni"] is True: sc["sni"] = sc["address"][0]` -/
+def sniFix (sc : Dict) : Option Dict := do
+  let sni ← dget sc (s "sni")
+  match sni with
+  | .bool true =>
+    match dget sc (s "address") with
+    | some (.list (h :: _)) => some (dset sc (s "sni") h)
+    | some (.str (b :: rest)) =>                                  -- str[0]: the first code point (UTF-8 lead byte + continuations)
+      some (dset sc (s "sni") (.str (b :: rest.takeWhile (fun c => 0x80 ≤ c.toNat ∧ c.toNat < 0xC0))))
+    | some (.bytes (b :: _)) => some (dset sc (s "sni") (.int b.toNat))
+    | _ => none
+  | _ => some sc
+
+/-- what 18→19 does to `server_conn` -/
+def server18 (sc : Dict) : Option Dict := conn18 (server18pre sc) >>= sniFix
+
+def conv_18_19 (d : Dict) : Option Dict := do
+  let d := setVersion d 19
+  let cc ← (dget d (s "client_conn")).bind asDict
+  let sc ← (dget d (s "server_conn")).bind asDict
+  let cc' ← client18 cc
+  let sc' ← server18 sc
+  pure (dset (dset d (s "client_conn") (.dict cc')) (s "server_conn") (.dict sc'))
+
 def conv_19_20 (d : Dict) : Option Dict := do
   let d := setVersion d 20
   let d ← dupd d (s "client_conn") (fun c => pure (dpop c (s "state")))
@@ -167,10 +249,11 @@ def conv (v : Nat) : Option (Dict → Option Dict) :=
   match v with
   | 10 => some conv_10_11 | 11 => some conv_11_12 | 12 => some conv_12_13 | 13 => some conv_13_14
   | 14 => some conv_14_15 | 15 => some conv_15_16 | 16 => some conv_16_17 | 17 => some conv_17_18
+  | 18 => some conv_18_19
   | 19 => some conv_19_20 | 20 => some conv_20_21
   | _ => none
 
-/-- apply the chain from 19 upward (18→19 is not modelled: it decodes host bytes with UTF-8/backslashreplace) -/
+/-- apply the chain from 19 upward -/
 def chain19 (d : Dict) : Option Dict := conv_19_20 d >>= conv_20_21
 
 /-- apply the chain from 12 up to 18 -/
